@@ -49,6 +49,8 @@ def _case(draw):
         c['world'] = draw(S.world(layers=(1, 60), nwn=(2, 4), max_active=2, extras=('CIA',), mags=['mixed']))
         c['family'] = draw(st.sampled_from(['transmission', 'emission']))
         c['steps'] = draw(st.lists(st.floats(0.02, 1.0), min_size=60, max_size=60)) if part == 'model-array' else []
+        c['top_first'] = draw(st.booleans())
+        c['planet_fac'] = [draw(st.floats(1.2, 2.5)), draw(st.floats(0.6, 0.95))]
     return c
 
 
@@ -127,7 +129,19 @@ def check_model(out, c):
     if array:
         lp = math.log10(W.pmax) - np.concatenate([[0.0], np.cumsum(c['steps'][:max(nl - 1, 0)])])
         arr = 10.0 ** lp[:nl]
-        W.pressure = ArrayPressureProfile(arr.copy())
+        # the array may be listed surface-first, or top-first with reverse=True: the same profile either way
+        if c.get('top_first'):
+            out.cls('array:top-first')
+            W.pressure = ArrayPressureProfile(arr[::-1].copy(), reverse=True)
+            out.applies('array-order-independent')
+            pa, pb = ArrayPressureProfile(arr[::-1].copy(), reverse=True), ArrayPressureProfile(arr.copy())
+            pa.compute_pressure_profile()
+            pb.compute_pressure_profile()
+            if not np.array_equal(np.asarray(pa.profile), np.asarray(pb.profile)) or \
+                    not np.array_equal(np.asarray(pa.pressure_profile_levels), np.asarray(pb.pressure_profile_levels)):
+                out.fail('array-order-independent', 'top-first listing with reverse=True gives other layers / levels than the surface-first listing')
+        else:
+            W.pressure = ArrayPressureProfile(arr.copy())
         if w['temp']['kind'] != 'iso':
             pass
     kw = {}
@@ -226,6 +240,35 @@ def check_model(out, c):
                                ('scaleheight_profile', m.scaleheight_profile, Hr)):
                 if np.shape(a) != np.shape(b) or not close(a, b, rtol=1e-9, atol=1e-12 * abs(zr[-1])):
                     out.fail('re-ranged-hydro@' + name, 'after the range change: max rel %.2e' % (maxrel(a, b) if np.shape(a) == np.shape(b) else -1))
+
+    planet_changed(out, c, W, m, w, nl)
+
+
+def planet_changed(out, c, W, m, w, nl):
+    """history: mass and radius moved through the model's fitting parameters (what a retrieval does), then the
+    structure is recomputed: it must be hydrostatic for the planet as it now is"""
+    fm, fr = c.get('planet_fac', [1.7, 0.8])
+    if nl < 2:
+        return
+    out.cls('planet-changed')
+    m['planet_mass'] = m['planet_mass'] * fm
+    m['planet_radius'] = m['planet_radius'] * fr
+    with np.errstate(all='ignore'):
+        cut(out, 'model@planet-changed', m.model)
+    Pl = np.asarray(m.pressure.pressure_profile_levels, dtype=float)
+    T = np.asarray(m.temperatureProfile, dtype=float)
+    mu = np.asarray(m.chemistry.muProfile, dtype=float)
+    if Pl.shape != (nl + 1,) or not np.all(np.diff(Pl) < 0) or not np.all(np.isfinite(np.asarray(m.altitude_boundaries, dtype=float))):
+        return
+    M = W.g_surface * (w['radius'] * RJUP) ** 2 / ref.G_NEWTON * fm
+    R = w['radius'] * RJUP * fr
+    zr, Hr, gr, dzr = hydro_reference(M, R, T, Pl, mu)
+    out.applies('planet-changed-hydro')
+    for name, a, b in (('altitude_boundaries', m.altitude_boundaries, zr), ('deltaz', m.deltaz, dzr),
+                       ('gravity_profile', m.gravity_profile, gr), ('scaleheight_profile', m.scaleheight_profile, Hr)):
+        if np.shape(a) != np.shape(b) or not close(a, b, rtol=1e-9, atol=1e-12 * abs(zr[-1])):
+            out.fail('planet-changed-hydro@' + name, 'after mass x%.2f radius x%.2f: max rel %.2e'
+                     % (fm, fr, maxrel(a, b) if np.shape(a) == np.shape(b) else -1))
 
 
 def check(case):
